@@ -40,6 +40,12 @@ FAULT_POINTS = [
     {"kind": "drip", "every": 0.4, "text": "working...\n", "stream": "out", "for": "inf", "d": 0.2},
     {"kind": "drip", "every": 0.7, "text": "still at it\n", "stream": "err", "for": "inf", "d": 0.3},
     {"kind": "drip", "every": 0.3, "text": ".", "stream": "err", "for": 2.5, "d": 0.2},
+    # causes that do not go away when the helper is started again (a retry meets them again, and again)
+    {"kind": "spawn_fail", "errno": 11, "persist": True},
+    {"kind": "nonzero", "rc": 1, "text": "ImportError: cannot import name 'symbols'\n", "persist": True},
+    {"kind": "slow", "d": 2.5, "persist": True},
+    {"kind": "garbage_out", "b": "Loading site plugins...\n", "keep": True, "persist": True},
+    {"kind": "crash", "sig": 9, "k": 0, "d": 0.3, "persist": True},
 ]
 for _p in FAULT_POINTS:
     if isinstance(_p.get("b"), dict):
@@ -102,6 +108,8 @@ def random_fault(r, kinds=None):
         p["life"] = round(r.uniform(0.1, 25.0), 2)
     if p["kind"] == "drip":
         p["every"] = round(r.uniform(0.05, 0.95), 2)
+    if not p.get("persist") and r.chance(0.15):
+        p["persist"] = True
     return p
 
 
@@ -138,16 +146,24 @@ def _op(entry, options, **kw):
 
 # ----------------------------------------------------------------------------------------------
 # C10
-def c10_sweep_specs(corp, helper_counts):
-    """ENUMERATED: every constexpr entry x every helper-invocation index x every fault point.
-    helper_counts: entry id -> number of helper invocations of a fault-free compile"""
+SWEEP_CORE = ("K/same_call_body0", "K/two_calls", "K/hash_body", "K/returns_float", "K/prints", "K/spins", "K/lib_same_name",
+              "K/first_prints_second_spins", "K/many_calls", "K/nested_constexpr", "R/example/constexpr", "R/case/constexpr_eval")
+SWEEP_REDUCED_KINDS = [3, 4, 9, 13, 17, 22, 25, 28, 30]  # indices into FAULT_POINTS: stall, spawn, crash, garbage(hex), orphan, drip, persist...
+
+
+def c10_sweep_specs(corp, helper_counts, full=True):
+    """ENUMERATED: constexpr entry x helper-invocation index x fault point.  full=True (thorough): every entry x every
+    point; full=False (quick): every point for the core entries (one per helper behaviour), a reduced set of points
+    (one per fault kind) for the others.  helper_counts: entry id -> helper invocations of a fault-free compile"""
     specs = []
     for e in corp.constexpr_entries:
         if "_shifted" in e["id"]:
             continue  # same evaluation script as the unshifted entry
         n_inv = max(1, helper_counts.get(e["id"], 1))
+        core = full or e["id"].split("#")[0] in SWEEP_CORE
+        points = FAULT_POINTS if core else [FAULT_POINTS[i] for i in SWEEP_REDUCED_KINDS if i < len(FAULT_POINTS)]
         for idx in range(n_inv):
-            for fp in FAULT_POINTS:
+            for fp in points:
                 plans = [{"kind": "ok", "d": 0.2}] * idx + [dict(fp)]
                 ops = [_op(e, {"append_version": False}, helpers=plans, faulty=True),
                        _op(e, {"append_version": False}, recheck=True)]
@@ -260,6 +276,8 @@ _SIBLINGS = [("K/same_call_body0", "K/same_call_body1"), ("K/same_call_body1", "
              ("D/generic_devices_numeric", "M/batch_positive_hash_compact"), ("D/generic_devices_numeric2", "M/batch_positive_hash_compact"),
              ("D/generic_devices_numeric", "M/int_large"), ("M/batch_positive_hash_compact", "D/generic_devices_numeric"),
              ("O/dir_multi", "M/batch_positive_hash"), ("O/dir_compact", "D/plain_then"),
+             ("D/defines_names", "D/uses_undefined_names"), ("D/defines_names", "D/uses_skipped_def"), ("D/defines_names", "D/uses_skipped_def2"),
+             ("D/sp_assign", "D/sp_read"), ("D/sp_augment", "D/sp_assign"), ("D/ra_assign", "D/explicit_regs"), ("D/sp_assign", "D/explicit_regs"),
              ("L/unused_extra", "L/libs2"), ("L/unused_extra", "L/unused_extra#1"), ("M/prefix_names", "M/prefix_names_pragma")]
 
 
@@ -430,9 +448,17 @@ def c10_directed_specs(corp, hash_seeds):
     specs = []
     base = [e for e in corp.entries if e.get("n", 0) == 0]
     for ci, chunk in enumerate(_chunks(base, 12)):
-        ops = [_op(e, {"append_version": False}) for e in chunk]
+        ops = [_op(e, {"append_version": False} if (ci + j) % 2 else {}) for j, e in enumerate(chunk)]
         specs.append({"property": "C10", "kind": "api", "hash_seed": 0, "origin": "directed", "label": "corpus-pass-%d" % ci,
                       "knobs": {"step_clock": True}, "ops": ops})
+    # programs that compile to nothing, or to long lines only, under the options that decorate the output
+    bare = [corp.by_id[i] for i in ("E/empty", "E/only_comment", "E/only_import", "E/only_ws", "E/string_only", "E/pass_only", "E/constexpr_no_call",
+                                    "E/very_long_line", "E/unicode_comment", "M/int_small", "R/example/one_file_to_rule_them_all") if i in corp.by_id]
+    deco = [{}, {"compact": True}, {"original_code_as_comment": True}, {"original_code_as_comment": True, "generated_comments": True, "compact": True},
+            {"remove_labels": True, "append_version": True}]
+    for oi, o in enumerate(deco):
+        specs.append({"property": "C10", "kind": "api", "hash_seed": 0, "origin": "directed", "label": "bare-output-%d" % oi,
+                      "knobs": {"step_clock": True}, "ops": [_op(e, dict(o)) for e in bare]})
     for a, b in _SIBLINGS:
         if a in corp.by_id and b in corp.by_id and (a.startswith("K/") or b.startswith("K/")):
             ops = [_op(corp.by_id[a], {"append_version": False}), _op(corp.by_id[b], {"append_version": False}),
@@ -458,6 +484,46 @@ def c11_directed_specs(corp, hash_seeds):
             specs.append({"property": "C11", "kind": "api", "hash_seed": 0, "origin": "directed",
                           "label": "pair %s -> %s (%s)" % (a, b, style), "knobs": {"step_clock": False, "do_timing": False},
                           "shared_options": {}, "ops": ops})
+    # every corpus entry once, first things in a process, at a hash seed other than the reference's
+    base = [e for e in corp.entries if e.get("n", 0) == 0]
+    nz = [h for h in hash_seeds if h] or [0]
+    for ci, chunk in enumerate(_chunks(base, 12)):
+        ops = []
+        for e in chunk:
+            op = _op(e, {}, opt_style="obj")
+            op["src_style"] = "dict"
+            ops.append(op)
+        specs.append({"property": "C11", "kind": "api", "hash_seed": nz[ci % len(nz)], "origin": "directed", "label": "corpus-pass-%d" % ci,
+                      "knobs": {"step_clock": False, "do_timing": False}, "shared_options": {}, "ops": ops})
+    # a request that FAILS (in every way the corpus knows), compiled compact, then requests that read process-wide state
+    failing = [i for i in ("E/syntax", "E/syntax_indent", "E/unsupported_class", "E/break_toplevel", "E/recursion_direct", "E/undefined_name",
+                           "E/out_of_registers", "E/deep_if", "E/long_expr", "E/huge_pow", "E/div_zero_const", "E/str_too_long", "E/bad_attr",
+                           "E/missing_library", "E/library_syntax_error", "E/library_error_far_line", "E/lua", "E/nul_byte", "E/reassign_error",
+                           "D/reassign_error", "K/raises", "K/raises_custom", "K/spins", "K/sys_exit3", "K/returns_nan", "K/returns_str",
+                           "K/undefined_name", "K/recursive_body", "O/compact+syntax", "O/multi+dedent", "O/dir_dunder") if i in corp.by_id]
+    probes = [i for i in ("M/enum_operand", "M/hash_str", "M/int_large", "M/batch_positive_hash", "K/same_call_body0", "D/alias_true",
+                          "L/libs2", "O/plain", "M/prefix_names") if i in corp.by_id]
+    for fi, f in enumerate(failing):
+        for style, fopts in (("obj", {"compact": True, "remove_labels": True}), ("shared", {})):
+            ops = []
+            for ident in [probes[fi % len(probes)], f] + probes:
+                opts = fopts if ident == f else {}
+                op = _op(corp.by_id[ident], dict(opts), opt_style=style)
+                op["src_style"] = "dict"
+                ops.append(op)
+            specs.append({"property": "C11", "kind": "api", "hash_seed": 0, "origin": "directed", "label": "after-failure %s (%s)" % (f, style),
+                          "knobs": {"step_clock": False, "do_timing": False}, "shared_options": {}, "ops": ops})
+    # compact then verbose, for everything whose text depends on the output mode
+    modes = [e for e in corp.entries if e.get("n", 0) == 0 and e["family"] in ("M", "D")]
+    for ci, chunk in enumerate(_chunks(modes, 8)):
+        ops = []
+        for e in chunk:
+            for o in ({"compact": True}, {}):
+                op = _op(e, dict(o), opt_style="obj")
+                op["src_style"] = "dict"
+                ops.append(op)
+        specs.append({"property": "C11", "kind": "api", "hash_seed": 0, "origin": "directed", "label": "compact-then-verbose-%d" % ci,
+                      "knobs": {"step_clock": False, "do_timing": False}, "shared_options": {}, "ops": ops})
     # everything that names modules, functions or devices, first thing in a process, under every hash seed
     sens = [e for e in corp.entries if e.get("n", 0) == 0 and (e["family"] in ("L", "D") or e["id"].startswith(("M/prefix", "M/batch", "M/named", "K/lib", "R/script", "E/library")))]
     for h in hash_seeds:
@@ -524,6 +590,31 @@ def c14_directed_specs(corp, hash_seeds):
             crlf.append({"kind": "empty", "entry": "empty", "raw": "", "term": "\r\n"})
     sess(crlf, "crlf-lockstep")
     sess([dict(l) for l in crlf], "crlf-pipelined-eof", client={"mode": "pipelined", "window": 3, "eager_end": False}, end="eof")
+    # the same code under different options, interleaved (a reply must depend on the whole request)
+    optsets = [{}, {"compact": True}, {"remove_labels": True, "inline_functions": False}, {"compact": True, "append_version": False}]
+    var = []
+    for j in range(12):
+        e = plain[j % len(plain)]
+        var.append(req(e, optsets[(j // len(plain) + j) % len(optsets)]))
+    sess(var, "same-code-other-options")
+    sess([dict(l) for l in var], "same-code-other-options-pipelined", client={"mode": "pipelined", "window": 5, "eager_end": False})
+    # large requests and large replies, with short writes on stdout
+    big = [corp.by_id[i] for i in ("E/many_lines", "E/very_long_line", "R/example/one_file_to_rule_them_all", "E/long_expr", "M/int_small") if i in corp.by_id]
+    huge = [l for l in junk if l["entry"] in ("J/huge_line", "J/huge_valid")]
+    lines = [req(e, {"original_code_as_comment": True, "generated_comments": True}) for e in big] + huge + [req(plain[0])]
+    sess(lines, "big-lockstep", short_writes=[1, 5, 100, 4096, 1, 70000, 3, 3, 3])
+    sess([dict(l) for l in lines], "big-pipelined", client={"mode": "pipelined", "window": 8, "eager_end": True}, end="eof",
+         chunking={"mode": "fixed", "n": 4096})
+    sess([req(plain[j % len(plain)], optsets[j % 2]) for j in range(6)], "burst-then-exit",
+         client={"mode": "pipelined", "window": 8, "eager_end": True}, end="exit")
+    sess([req(plain[j % len(plain)]) for j in range(5)], "burst-then-exit-more",
+         client={"mode": "pipelined", "window": 8, "eager_end": True}, end="exit_then_more",
+         after_exit=[C.request_line({"": C.HDR + "db.Setting = 99\n"}), "junk after exit"])
+    # a line of more than a mebibyte (read limits, block readers)
+    giant = [{"kind": "junk", "entry": "J/giant_line", "raw": "A" * (2 * 1024 * 1024 + 17)},
+             {"kind": "request", "entry": "J/giant_valid", "constexpr": False,
+              "raw": C.request_line({"": C.HDR + "# " + "z" * 1100000 + "\ndb.Setting = 77\n"})}]
+    sess([req(plain[0])] + giant + [req(plain[1])], "giant-lines")
     # fixed thread schedules (consumed only by a daemon that runs more than one thread / several pending callbacks)
     three = [req(e) for e in plain[:3]]
     for pi, plan in enumerate(_STALL_PLANS):
